@@ -135,13 +135,19 @@ class FakeTransport(asyncio.Transport):
                 self.net.ev("write_dropped", c=self.c, b=list(data), why="fault")
                 self._fatal(link_error(getattr(self, "fault_exc", None), ConnectionResetError("injected write fault")), "write_fault")
                 return
-        self.net.ev("write", c=self.c, b=list(data))
         # the send buffer fills up with this write (the peer stopped reading): asyncio transports call
-        # pause_writing() from within write()
+        # pause_writing() from within write() - and this very write sits in the buffer, so the stall
+        # is logged before it (a frame it belongs to has not left when the connection dies stalled)
+        trigger = False
         if getattr(self, "pause_in", 0):
             self.pause_in -= 1
-            if self.pause_in == 0:
-                self.pause()
+            trigger = self.pause_in == 0 and not self.lost and not getattr(self, "paused", False)
+        if trigger:
+            self.paused = True
+            self.net.ev("paused", c=self.c)
+        self.net.ev("write", c=self.c, b=list(data))
+        if trigger:
+            self.protocol.pause_writing()
 
     def _fatal(self, exc, why):
         if self.lost:
